@@ -1,6 +1,13 @@
 """Which contracts decide which property."""
 
 PROPERTIES = {
+    "C08": dict(
+        contracts=[
+            ("contracts.accel", "SNAXStreamer_setup_vals_match_fields"),
+        ],
+        trusted_base=["oracle: the field NAMES (X_ptr_low, X_bound_d, X_tstride_d, ...) encode their meaning; padding/collapse rules from the property statement",
+                      "view of snax_stream.StreamingRegionOp (operands + stride patterns)"],
+    ),
     "C01": dict(
         contracts=[
             ("contracts.accfg", "SimplifyRedundantSetupCalls_contract"),
